@@ -161,6 +161,11 @@ func (tt *TypeTable) structName(n *types.Named) string {
 			s += "_" + mangle(tt.sortOf(ta.At(i)))
 		}
 	}
+	// a type declared inside a function: two functions of a package may declare local types of
+	// the same name with different fields (sst.NewTable / sst.NewTableFromDocument: CleanupParams)
+	if o := n.Obj(); o.Pkg() != nil && o.Parent() != nil && o.Parent() != o.Pkg().Scope() && o.Parent() != types.Universe {
+		s += fmt.Sprintf("_local%d", int(o.Pos()))
+	}
 	return "St_" + mangle(s)
 }
 
